@@ -119,6 +119,9 @@ func flight4bGenerate(
 	if err != nil {
 		return nil, nil, err
 	}
+	if err = validateServerCipherSuite(serverHelloMessage, state.CipherSuite); err != nil {
+		return nil, &alert.Alert{Level: alert.Fatal, Description: alert.InternalError}, err
+	}
 	if err = validateServerSRTP(
 		offer, serverHelloMessage.Extensions, cfg.LocalSRTPProtectionProfiles, srtpSelection,
 	); err != nil {
